@@ -17,13 +17,14 @@ LEVEL = 'proof'
 PROPS_MODULES = ['RTV.Props.C20']
 GEN = ['chartables', 'regexes', 'emojitable']
 REQUIRED_THEOREMS = ['alts_polarity', 'alts_listed', 'neutral_nothing', 'both_polarities_one_entity',
-                     'reported_score_unit_interval', 'matchValue_can_exceed_one', 'rewrite_true_regex',
-                     'prefix_rewrite_loses_thumbs_up', 'prefix_first_occurrence_span']
+                     'reported_score_unit_interval', 'score_unit_interval', 'same_polarity_one_entity',
+                     'repeated_expression_one_entity', 'rewrite_true_regex', 'prefix_rewrite_loses_thumbs_up',
+                     'prefix_first_occurrence_span', 'prefix_matchValue_can_exceed_one', 'prefix_not_ok_not_sure_raised']
 RULE = ('alternatives enumerated from EnglishChoice.TrueRegex/FalseRegex of the working tree (`\\s+` as 1 and 3 blanks; '
         'surrogate pairs / \\u0001Fxxx escapes as the single code point they denote) x {lower, UPPER, Title} x 12 contexts '
         '(punctuation, filler words, blanks, tabs) + contexts with a filler word that contains the alternative as a '
         'substring; neutral pool incl. empty / whitespace-only / words containing alternatives inside (nobody, okay, '
-        'yesterday); every (true, false) pair in both orders x 3 separators; non-trivial = distinct query with an entity')
+        'yesterday); every (true, false) pair in both orders x 3 separators; every pair of one polarity x 3 separators, every expression 2x / 3x, fixed probes with repeated tokens ("not ok not sure", "no no", "yes yes yes"), seeded lists of 3-6 listed words; non-trivial = distinct query with an entity')
 ASSUMPTIONS = ['emoji table = single code points for which the installed `emoji` package\'s demojize() changes the text (RTV/Gen/Emoji.lean)',
                'str.lower per code point from the running CPython (final-sigma context rule not modelled; no Greek in the pool)',
                'scores are exact fractions in the model; the implementation\'s floats are compared with tolerance 1e-9 and must order candidates identically on the explored inputs',
@@ -186,7 +187,13 @@ def correspond(ctx):
     v_rewrite = 'fixed' if impl.su.remove_unicode_matches(_P) == '\\U0001F44D' else 'prefix'
     probe = impl.rec('nobody said no')
     v_offset = 'fixed' if (probe and probe[0].start == 12) else 'prefix'
-    ctx.extra['variants'] = {'remove_unicode_matches': v_rewrite, 'span_offset': v_offset}
+    miss = impl.su.index_of(['a'], 'x', 0)            # -1 in the current code, 1 before /repo 4afb7c9b1
+    import inspect
+    from recognizers_choice.choice.models import ChoiceModel
+    parse_init = 'parse_results = []' in inspect.getsource(ChoiceModel.parse)
+    v_env = '+'.join([v_offset] + (['miss1'] if miss == 1 else []) + ([] if parse_init else ['noinit']))
+    ctx.extra['variants'] = {'remove_unicode_matches': v_rewrite, 'span_offset': v_offset, 'index_of_miss': miss,
+                             'parse_results_initialised': parse_init}
     tw, te = alternatives(res.TrueRegex)
     fw, fe = alternatives(res.FalseRegex)
     ctx.extra['alternatives'] = {'true_words': tw, 'true_emoji': te, 'false_words': fw, 'false_emoji': fe}
@@ -266,9 +273,46 @@ def correspond(ctx):
                                'polarity, got %s' % (q, out),
                                failing_input={'op': 'recognize_boolean', 'query': q, 'reported': out}, property_fails=True)
 
+    # 5. several listed expressions of one polarity, repeated expressions, mixtures with repeated tokens
+    def check_listed(q, family):
+        queries.append(q)
+        rs, out = run_query(impl, q)
+        ctx.count(family)
+        ok = rs is not None and len(rs) == 1
+        if ok:
+            x = rs[0]
+            lst = (tw + te) if x.resolution['value'] is True else (fw + fe)
+            sc = x.resolution.get('score')
+            ok = (x.text.lower() in lst and q[x.start:x.end + 1] == x.text and isinstance(x.resolution['value'], bool)
+                  and isinstance(sc, (int, float)) and 0 <= sc <= 1)
+        if ok:
+            ctx.nontriv((family, q))
+        else:
+            dead = [e for e in te + fe if e in q and impl.rec(e) == []]
+            sig = 'raises' if rs is None else ('emoji-unreachable' if dead else 'several-expressions')
+            ctx.report('property', sig, 'recognize_boolean(%r): expected exactly one listed expression with its own polarity, '
+                       'got %s' % (q, out), failing_input={'op': 'recognize_boolean', 'query': q, 'reported': out},
+                       property_fails=True)
+    for q in ('not ok not sure', 'yes yes yes', 'no no', 'not ok not ok', 'sure sure not sure', 'ok ok not ok ok',
+              'no, no, no!', 'yes... yes?', 'not not ok', 'ok not', 'y y y y y y y y', 'no yes no yes no'):
+        check_listed(q, 'pipeline-repeated-tokens')
+    for lst in (tw + te, fw + fe):
+        for w in lst:
+            for sep in (' ', ', '):
+                check_listed(w + sep + w, 'pipeline-repeated-tokens')
+                check_listed(w + sep + w + sep + w, 'pipeline-repeated-tokens')
+        for w1, w2 in itertools.product(lst, repeat=2):
+            for sep in (' ', ', ', ' and '):
+                check_listed(w1 + sep + w2, 'pipeline-same-polarity')
+    r3 = ctx.rng('triples')
+    allw = tw + fw
+    for _ in range(1500 if ctx.thorough else 300):
+        parts = [r3.choice(allw) for _ in range(r3.randint(3, 6))]
+        check_listed(' '.join(parts), 'pipeline-random-expression-lists')
+
     # ---- model vs implementation on every pipeline query
     queries = list(dict.fromkeys(queries))
-    lines = ['bool.rec\t%s\t%s' % (v_offset, cps(q)) for q in queries]
+    lines = ['bool.rec\t%s\t%s' % (v_env, cps(q)) for q in queries]
     model = common.driver(lines)
     ctx.count('model-vs-recognize_boolean', len(lines))
     for q, m in zip(queries, model):
@@ -313,7 +357,7 @@ def correspond(ctx):
         mt = [r.choice(pool) for _ in range(r.randint(0, 3))]
         mv_cases.append((src, mt, r.randint(0, max(len(src), 1))))
     for src, mt, st in mv_cases:
-        lines.append('\t'.join(['bool.mv', str(st), str(len(src))] + [cps(t) for t in src] + [cps(t) for t in mt]))
+        lines.append('\t'.join(['bool.mv', str(miss), str(st), str(len(src))] + [cps(t) for t in src] + [cps(t) for t in mt]))
         try:
             want.append(impl.extractor.match_value(src, mt, st))
         except ZeroDivisionError:
@@ -336,7 +380,7 @@ def correspond(ctx):
     # extract
     lines, want = [], []
     for q in queries[:2500]:
-        lines.append('bool.extract\t%s\t%s' % (v_offset, cps(q)))
+        lines.append('bool.extract\t%s\t%s' % (v_env, cps(q)))
         try:
             ers = impl.extractor.extract(q)
             want.append([(e.start, e.length, e.text, e.type, e.data.score) for e in ers])
